@@ -171,3 +171,40 @@ def run_in_child(fn):
     if os.WIFEXITED(status):
         return os.WEXITSTATUS(status)
     return -os.WTERMSIG(status)
+
+
+def in_fork(fn):
+    """Run fn() in a forked child and return its (picklable) result.
+
+    Every execution of an exploration starts from the SAME process state (the state at the fork): whatever the code under
+    test remembers between calls (module-level memos, registries, leaked connections) cannot flow from one execution into
+    the next, so the statement numbering learnt in the dry run stays valid and any divergence is a property of one execution.
+    An exception in the child is re-raised here as RuntimeError with the child's traceback.
+    """
+    import pickle
+    import traceback
+    r, w = os.pipe()
+    pid = os.fork()
+    if pid == 0:
+        os.close(r)
+        try:
+            try:
+                payload = pickle.dumps(('ok', fn()))
+            except BaseException as e:      # noqa
+                payload = pickle.dumps(('exc', f'{type(e).__name__}: {e}', traceback.format_exc()))
+            with os.fdopen(w, 'wb') as f:
+                f.write(payload)
+        finally:
+            os._exit(0)
+    os.close(w)
+    with os.fdopen(r, 'rb') as f:
+        data = f.read()
+    os.waitpid(pid, 0)
+    if not data:
+        raise RuntimeError('forked execution died without a result')
+    res = pickle.loads(data)
+    if res[0] == 'exc':
+        err = RuntimeError(res[1] + '\n' + res[2])
+        err.child_error = res[1]
+        raise err
+    return res[1]
